@@ -5,6 +5,8 @@ import os
 import sys
 HERE = os.path.dirname(os.path.dirname(os.path.abspath(__file__)))
 meta = json.load(open(os.path.join(HERE, 'tools', 'manifest_meta.json')))
+import glob
+meta['checks'] = {os.path.basename(f)[:-5]: json.load(open(f)) for f in glob.glob(os.path.join(HERE, 'tools', 'meta', 'C*.json'))}
 props = [json.loads(l)['id'] for l in open(os.path.join(HERE, 'properties.jsonl'))]
 checks = []
 for pid in props:
